@@ -163,6 +163,17 @@ func workerEval(args []string) {
 		} else {
 			res = evalOutcome(fg, f[3], []string{"a"}, []value.Value{value.Int(a)})
 		}
+		if strings.Contains(flags, "settle") {
+			// closures evaluated in the background AFTER the evaluation has returned count as well: wait until the counter has
+			// been at rest for 40 ms, at most 1.5 s
+			last, since := workerTicks.Load(), time.Now()
+			for deadline := time.Now().Add(1500 * time.Millisecond); time.Now().Before(deadline) && time.Since(since) < 40*time.Millisecond; {
+				time.Sleep(5 * time.Millisecond)
+				if now := workerTicks.Load(); now != last {
+					last, since = now, time.Now()
+				}
+			}
+		}
 		ng := 0
 		seen.Range(func(k, v any) bool { ng++; return true })
 		fmt.Fprintf(out, "%s\t%s\tg=%d\tt=%d\n", f[0], res, ng, workerTicks.Load()-before)
